@@ -125,8 +125,8 @@ example : (cube0.loosened 0.3).intersects cube1 := by
 example : (cube0.loosened 0.3).intersects cube1 ∧ (cube1.loosened 0.3).intersects cube0 := by
   refine prefilter_conservative_sets (A := {⟨1, 0, 0⟩}) (B := {⟨1.3, 0, 0⟩}) ?_ ?_
     ⟨_, rfl, _, rfl, ?_⟩
-  · rintro _ rfl; simp only [Set.mem_setOf_eq, Box.contains, cube0]; norm_num
-  · rintro _ rfl; simp only [Set.mem_setOf_eq, Box.contains, cube1]; norm_num
+  · rintro _ rfl; show cube0.contains _; simp only [Box.contains, cube0]; norm_num
+  · rintro _ rfl; show cube1.contains _; simp only [Box.contains, cube1]; norm_num
   · rw [V3.norm_eq, V3.normSq_eq]
     simp only [V3.sub]
     exact Real.sqrt_le_iff.mpr ⟨by norm_num, by norm_num⟩
